@@ -27,45 +27,52 @@ CONSTANTS
     Hows,        \* ways of mutating a leaf: "move", "edit", "set"
     MaxEval, MaxMut, MaxVer
 
-VARIABLES tree, attached, dver, shape, pver, linked, nev, nmut, act
-vars == <<tree, attached, dver, shape, pver, linked, nev, nmut, act>>
-avars == <<tree, attached, dver, shape, pver, linked>>
+VARIABLES tree, attached, dver, shape, pver, linked, vs, nev, nmut, seen, act
+\* seen: which results were requested so far (history: this is what a cache can depend on, so histories that differ
+\* in it must not be merged when behaviours are generated)
+vars == <<tree, attached, dver, shape, pver, linked, vs, nev, nmut, seen, act>>
+avars == <<tree, attached, dver, shape, pver, linked, vs>>
 
 A(op, a, b) == [op |-> op, a |-> a, b |-> b]
 
 Init ==
     /\ tree = "none"
-    /\ attached = FALSE
+    /\ attached = "free"
     /\ dver = 0
     /\ shape = "s1"
     /\ pver = [s \in Slots |-> 0]
-    /\ linked = FALSE
+    /\ linked = "none"
+    /\ vs = [log |-> FALSE, nbin |-> 4]
     /\ nev = 0
     /\ nmut = 0
+    /\ seen = {}
     /\ act = A("Init", "-", "-")
 
+(* how the selection lives: attached to the dataset as a subset of a group, free-standing with the dataset in a
+   collection, or free-standing with a dataset that is in no collection at all (no hub) *)
 Setup(t, att) ==
     /\ tree = "none"
     /\ tree' = t
     /\ attached' = att
-    /\ act' = A("Setup", t, IF att THEN "attached" ELSE "free")
-    /\ UNCHANGED <<dver, shape, pver, linked, nev, nmut>>
+    /\ act' = A("Setup", t, att)
+    /\ UNCHANGED <<dver, shape, pver, linked, vs, nev, nmut, seen>>
 
 Evaluate(k) ==
     /\ tree # "none"
     /\ nev < MaxEval
     /\ nev' = nev + 1
+    /\ seen' = seen \cup {k}
     /\ act' = A("Evaluate", k, "-")
     /\ UNCHANGED <<avars, nmut>>
 
-Mut == tree # "none" /\ nmut < MaxMut /\ nmut' = nmut + 1
+Mut == tree # "none" /\ nmut < MaxMut /\ nmut' = nmut + 1 /\ seen' = seen
 
 UpdateComponents ==
     /\ Mut
     /\ dver < MaxVer
     /\ dver' = dver + 1
     /\ act' = A("UpdateComponents", "-", "-")
-    /\ UNCHANGED <<tree, attached, shape, pver, linked, nev>>
+    /\ UNCHANGED <<tree, attached, shape, pver, linked, vs, nev>>
 
 UpdateFromData(newshape) ==
     /\ Mut
@@ -73,7 +80,7 @@ UpdateFromData(newshape) ==
     /\ dver' = dver + 1
     /\ shape' = IF newshape THEN (IF shape = "s1" THEN "s2" ELSE "s1") ELSE shape
     /\ act' = A("UpdateFromData", IF newshape THEN "newshape" ELSE "same", "-")
-    /\ UNCHANGED <<tree, attached, pver, linked, nev>>
+    /\ UNCHANGED <<tree, attached, pver, linked, vs, nev>>
 
 MutateLeaf(s, how) ==
     /\ Mut
@@ -81,21 +88,34 @@ MutateLeaf(s, how) ==
     /\ pver[s] < MaxVer
     /\ pver' = [pver EXCEPT ![s] = @ + 1]
     /\ act' = A("MutateLeaf", s, how)
-    /\ UNCHANGED <<tree, attached, dver, shape, linked, nev>>
+    /\ UNCHANGED <<tree, attached, dver, shape, linked, vs, nev>>
 
-ToggleLink ==
+(* the link between the two datasets: none, L1 or L2 - two different functions defining the same attribute, so that
+   replacing one by the other keeps the set of reachable attributes and changes only the values *)
+SetLink(k) ==
     /\ Mut
-    /\ linked' = ~linked
-    /\ act' = A(IF linked THEN "RemoveLink" ELSE "AddLink", "-", "-")
-    /\ UNCHANGED <<tree, attached, dver, shape, pver, nev>>
+    /\ attached # "standalone"
+    /\ k # linked
+    /\ linked' = k
+    /\ act' = A("SetLink", k, "-")
+    /\ UNCHANGED <<tree, attached, dver, shape, pver, vs, nev>>
+
+(* settings of a histogram viewer showing the dataset *)
+SetViewer(what) ==
+    /\ Mut
+    /\ attached # "standalone"
+    /\ vs' = IF what = "log" THEN [vs EXCEPT !.log = ~@] ELSE [vs EXCEPT !.nbin = IF @ = 4 THEN 6 ELSE 4]
+    /\ act' = A("SetViewer", what, "-")
+    /\ UNCHANGED <<tree, attached, dver, shape, pver, linked, nev>>
 
 Next ==
-    \/ \E t \in Trees, att \in BOOLEAN : Setup(t, att)
+    \/ \E t \in Trees, att \in {"attached", "free", "standalone"} : Setup(t, att)
     \/ \E k \in EvalKinds : Evaluate(k)
     \/ UpdateComponents
     \/ \E ns \in BOOLEAN : UpdateFromData(ns)
     \/ \E s \in Slots, how \in Hows : MutateLeaf(s, how)
-    \/ ToggleLink
+    \/ \E k \in {"none", "L1", "L2"} : SetLink(k)
+    \/ \E w \in {"log", "nbin"} : SetViewer(w)
 
 Spec == Init /\ [][Next]_vars
 
